@@ -43,7 +43,9 @@ structure HOk (closing : Bool) (cpc : ClosePc) (h : Handler) : Prop where
   afterMark : anyMarked h.marks = true → h.pc.winding = true
   sam : h.servedAfterMark = false
   sar : h.startedAfterReturn = false
-  late : h.late = true → closing = true ∧ h.pc.afterClosing = true ∧ h.started = 0
+  late : h.late = true → closing = true ∧ h.entered = false
+  ent : h.entered = false → h.pc.afterClosing = true ∧ h.started = 0
+  pre : (h.pc = .accepted ∨ h.pc = .spawned ∨ h.pc = .added) → h.entered = false
   zero : cpc = .zeroSeen → h.pc.counted = false
   ret : cpc = .returned → h.pc.afterClosing = true
 
@@ -55,14 +57,14 @@ macro "hok_tac" : tactic => `(tactic|
 theorem hstep_ok_spawn {closing : Bool} {cpc : ClosePc} {h h' : Handler}
     (hg : cpc = .returned → closing = true) (ok : HOk closing cpc h)
     (hs : hstep closing cpc.holdsMu (decide (cpc = .returned)) h (.spawn) = some h') : HOk closing cpc h' := by
-  obtain ⟨e1, e2, e3, e4, e5, e6, e7, e8, e9, e10, e11⟩ := ok
+  obtain ⟨e1, e2, e3, e4, e5, e6, e7, e8, e9, e9', e9'', e10, e11⟩ := ok
   cases hpc : h.pc <;> simp [hstep, hpc, Pc.readable] at hs
   all_goals (first | (obtain ⟨hc, hs⟩ := hs; subst hs; hok_tac) | (subst hs; hok_tac))
 
 theorem hstep_ok_add {closing : Bool} {cpc : ClosePc} {h h' : Handler}
     (hg : cpc = .returned → closing = true) (ok : HOk closing cpc h)
     (hs : hstep closing cpc.holdsMu (decide (cpc = .returned)) h (.add) = some h') : HOk closing cpc h' := by
-  obtain ⟨e1, e2, e3, e4, e5, e6, e7, e8, e9, e10, e11⟩ := ok
+  obtain ⟨e1, e2, e3, e4, e5, e6, e7, e8, e9, e9', e9'', e10, e11⟩ := ok
   cases hpc : h.pc <;> simp [hstep, hpc, Pc.readable] at hs
   all_goals (obtain ⟨hc, hs⟩ := hs; subst hs; hok_tac)
   all_goals (cases cpc <;> simp_all)
@@ -70,7 +72,7 @@ theorem hstep_ok_add {closing : Bool} {cpc : ClosePc} {h h' : Handler}
 theorem hstep_ok_checkClosing {closing : Bool} {cpc : ClosePc} {h h' : Handler}
     (hg : cpc = .returned → closing = true) (ok : HOk closing cpc h)
     (hs : hstep closing cpc.holdsMu (decide (cpc = .returned)) h (.checkClosing) = some h') : HOk closing cpc h' := by
-  obtain ⟨e1, e2, e3, e4, e5, e6, e7, e8, e9, e10, e11⟩ := ok
+  obtain ⟨e1, e2, e3, e4, e5, e6, e7, e8, e9, e9', e9'', e10, e11⟩ := ok
   cases closing
   all_goals cases hpc : h.pc <;> simp [hstep, hpc, Pc.readable] at hs
   all_goals (first | (obtain ⟨hc, hs⟩ := hs; subst hs; hok_tac) | (subst hs; hok_tac))
@@ -78,91 +80,91 @@ theorem hstep_ok_checkClosing {closing : Bool} {cpc : ClosePc} {h h' : Handler}
 theorem hstep_ok_firstByte {closing : Bool} {cpc : ClosePc} {h h' : Handler}
     (hg : cpc = .returned → closing = true) (ok : HOk closing cpc h)
     (hs : hstep closing cpc.holdsMu (decide (cpc = .returned)) h (.firstByte) = some h') : HOk closing cpc h' := by
-  obtain ⟨e1, e2, e3, e4, e5, e6, e7, e8, e9, e10, e11⟩ := ok
+  obtain ⟨e1, e2, e3, e4, e5, e6, e7, e8, e9, e9', e9'', e10, e11⟩ := ok
   cases hpc : h.pc <;> simp [hstep, hpc, Pc.readable] at hs
   all_goals (first | (obtain ⟨hc, hs⟩ := hs; subst hs; hok_tac) | (subst hs; hok_tac))
 
 theorem hstep_ok_gotReq {closing : Bool} {cpc : ClosePc} {h h' : Handler} {rc : Bool}
     (hg : cpc = .returned → closing = true) (ok : HOk closing cpc h)
     (hs : hstep closing cpc.holdsMu (decide (cpc = .returned)) h (.gotReq rc) = some h') : HOk closing cpc h' := by
-  obtain ⟨e1, e2, e3, e4, e5, e6, e7, e8, e9, e10, e11⟩ := ok
+  obtain ⟨e1, e2, e3, e4, e5, e6, e7, e8, e9, e9', e9'', e10, e11⟩ := ok
   cases hpc : h.pc <;> simp [hstep, hpc, Pc.readable] at hs
   all_goals (first | (obtain ⟨hc, hs⟩ := hs; subst hs; hok_tac) | (subst hs; hok_tac))
 
 theorem hstep_ok_closingSeen {closing : Bool} {cpc : ClosePc} {h h' : Handler}
     (hg : cpc = .returned → closing = true) (ok : HOk closing cpc h)
     (hs : hstep closing cpc.holdsMu (decide (cpc = .returned)) h (.closingSeen) = some h') : HOk closing cpc h' := by
-  obtain ⟨e1, e2, e3, e4, e5, e6, e7, e8, e9, e10, e11⟩ := ok
+  obtain ⟨e1, e2, e3, e4, e5, e6, e7, e8, e9, e9', e9'', e10, e11⟩ := ok
   cases hpc : h.pc <;> simp [hstep, hpc, Pc.readable] at hs
   all_goals (first | (obtain ⟨hc, hs⟩ := hs; subst hs; hok_tac) | (subst hs; hok_tac))
 
 theorem hstep_ok_readErr {closing : Bool} {cpc : ClosePc} {h h' : Handler}
     (hg : cpc = .returned → closing = true) (ok : HOk closing cpc h)
     (hs : hstep closing cpc.holdsMu (decide (cpc = .returned)) h (.readErr) = some h') : HOk closing cpc h' := by
-  obtain ⟨e1, e2, e3, e4, e5, e6, e7, e8, e9, e10, e11⟩ := ok
+  obtain ⟨e1, e2, e3, e4, e5, e6, e7, e8, e9, e9', e9'', e10, e11⟩ := ok
   cases hpc : h.pc <;> simp [hstep, hpc, Pc.readable] at hs
   all_goals (first | (obtain ⟨hc, hs⟩ := hs; subst hs; hok_tac) | (subst hs; hok_tac))
 
 theorem hstep_ok_reqmodStart {closing : Bool} {cpc : ClosePc} {h h' : Handler}
     (hg : cpc = .returned → closing = true) (ok : HOk closing cpc h)
     (hs : hstep closing cpc.holdsMu (decide (cpc = .returned)) h (.reqmodStart) = some h') : HOk closing cpc h' := by
-  obtain ⟨e1, e2, e3, e4, e5, e6, e7, e8, e9, e10, e11⟩ := ok
+  obtain ⟨e1, e2, e3, e4, e5, e6, e7, e8, e9, e9', e9'', e10, e11⟩ := ok
   cases hpc : h.pc <;> simp [hstep, hpc, Pc.readable] at hs
   all_goals (first | (obtain ⟨hc, hs⟩ := hs; subst hs; hok_tac) | (subst hs; hok_tac))
 
 theorem hstep_ok_reqmodEnd {closing : Bool} {cpc : ClosePc} {h h' : Handler}
     (hg : cpc = .returned → closing = true) (ok : HOk closing cpc h)
     (hs : hstep closing cpc.holdsMu (decide (cpc = .returned)) h (.reqmodEnd) = some h') : HOk closing cpc h' := by
-  obtain ⟨e1, e2, e3, e4, e5, e6, e7, e8, e9, e10, e11⟩ := ok
+  obtain ⟨e1, e2, e3, e4, e5, e6, e7, e8, e9, e9', e9'', e10, e11⟩ := ok
   cases hpc : h.pc <;> simp [hstep, hpc, Pc.readable] at hs
   all_goals (first | (obtain ⟨hc, hs⟩ := hs; subst hs; hok_tac) | (subst hs; hok_tac))
 
 theorem hstep_ok_rtStart {closing : Bool} {cpc : ClosePc} {h h' : Handler}
     (hg : cpc = .returned → closing = true) (ok : HOk closing cpc h)
     (hs : hstep closing cpc.holdsMu (decide (cpc = .returned)) h (.rtStart) = some h') : HOk closing cpc h' := by
-  obtain ⟨e1, e2, e3, e4, e5, e6, e7, e8, e9, e10, e11⟩ := ok
+  obtain ⟨e1, e2, e3, e4, e5, e6, e7, e8, e9, e9', e9'', e10, e11⟩ := ok
   cases hpc : h.pc <;> simp [hstep, hpc, Pc.readable] at hs
   all_goals (first | (obtain ⟨hc, hs⟩ := hs; subst hs; hok_tac) | (subst hs; hok_tac))
 
 theorem hstep_ok_rtEnd {closing : Bool} {cpc : ClosePc} {h h' : Handler} {rc : Bool}
     (hg : cpc = .returned → closing = true) (ok : HOk closing cpc h)
     (hs : hstep closing cpc.holdsMu (decide (cpc = .returned)) h (.rtEnd rc) = some h') : HOk closing cpc h' := by
-  obtain ⟨e1, e2, e3, e4, e5, e6, e7, e8, e9, e10, e11⟩ := ok
+  obtain ⟨e1, e2, e3, e4, e5, e6, e7, e8, e9, e9', e9'', e10, e11⟩ := ok
   cases hpc : h.pc <;> simp [hstep, hpc, Pc.readable] at hs
   all_goals (first | (obtain ⟨hc, hs⟩ := hs; subst hs; hok_tac) | (subst hs; hok_tac))
 
 theorem hstep_ok_resmodStart {closing : Bool} {cpc : ClosePc} {h h' : Handler}
     (hg : cpc = .returned → closing = true) (ok : HOk closing cpc h)
     (hs : hstep closing cpc.holdsMu (decide (cpc = .returned)) h (.resmodStart) = some h') : HOk closing cpc h' := by
-  obtain ⟨e1, e2, e3, e4, e5, e6, e7, e8, e9, e10, e11⟩ := ok
+  obtain ⟨e1, e2, e3, e4, e5, e6, e7, e8, e9, e9', e9'', e10, e11⟩ := ok
   cases hpc : h.pc <;> simp [hstep, hpc, Pc.readable] at hs
   all_goals (first | (obtain ⟨hc, hs⟩ := hs; subst hs; hok_tac) | (subst hs; hok_tac))
 
 theorem hstep_ok_resmodEnd {closing : Bool} {cpc : ClosePc} {h h' : Handler}
     (hg : cpc = .returned → closing = true) (ok : HOk closing cpc h)
     (hs : hstep closing cpc.holdsMu (decide (cpc = .returned)) h (.resmodEnd) = some h') : HOk closing cpc h' := by
-  obtain ⟨e1, e2, e3, e4, e5, e6, e7, e8, e9, e10, e11⟩ := ok
+  obtain ⟨e1, e2, e3, e4, e5, e6, e7, e8, e9, e9', e9'', e10, e11⟩ := ok
   cases hpc : h.pc <;> simp [hstep, hpc, Pc.readable] at hs
   all_goals (first | (obtain ⟨hc, hs⟩ := hs; subst hs; hok_tac) | (subst hs; hok_tac))
 
 theorem hstep_ok_decide {closing : Bool} {cpc : ClosePc} {h h' : Handler}
     (hg : cpc = .returned → closing = true) (ok : HOk closing cpc h)
     (hs : hstep closing cpc.holdsMu (decide (cpc = .returned)) h (.decide) = some h') : HOk closing cpc h' := by
-  obtain ⟨e1, e2, e3, e4, e5, e6, e7, e8, e9, e10, e11⟩ := ok
+  obtain ⟨e1, e2, e3, e4, e5, e6, e7, e8, e9, e9', e9'', e10, e11⟩ := ok
   cases hpc : h.pc <;> simp [hstep, hpc, Pc.readable] at hs
   all_goals (first | (obtain ⟨hc, hs⟩ := hs; subst hs; hok_tac) | (subst hs; hok_tac))
 
 theorem hstep_ok_writeStart {closing : Bool} {cpc : ClosePc} {h h' : Handler}
     (hg : cpc = .returned → closing = true) (ok : HOk closing cpc h)
     (hs : hstep closing cpc.holdsMu (decide (cpc = .returned)) h (.writeStart) = some h') : HOk closing cpc h' := by
-  obtain ⟨e1, e2, e3, e4, e5, e6, e7, e8, e9, e10, e11⟩ := ok
+  obtain ⟨e1, e2, e3, e4, e5, e6, e7, e8, e9, e9', e9'', e10, e11⟩ := ok
   cases hpc : h.pc <;> simp [hstep, hpc, Pc.readable] at hs
   all_goals (first | (obtain ⟨hc, hs⟩ := hs; subst hs; hok_tac) | (subst hs; hok_tac))
 
 theorem hstep_ok_writeEnd {closing : Bool} {cpc : ClosePc} {h h' : Handler}
     (hg : cpc = .returned → closing = true) (ok : HOk closing cpc h)
     (hs : hstep closing cpc.holdsMu (decide (cpc = .returned)) h (.writeEnd) = some h') : HOk closing cpc h' := by
-  obtain ⟨e1, e2, e3, e4, e5, e6, e7, e8, e9, e10, e11⟩ := ok
+  obtain ⟨e1, e2, e3, e4, e5, e6, e7, e8, e9, e9', e9'', e10, e11⟩ := ok
   cases hpc : h.pc <;> simp [hstep, hpc, Pc.readable] at hs
   rename_i b
   have e4' := e4 b (Or.inr hpc)
@@ -178,14 +180,14 @@ theorem hstep_ok_writeEnd {closing : Bool} {cpc : ClosePc} {h h' : Handler}
 theorem hstep_ok_closeConn {closing : Bool} {cpc : ClosePc} {h h' : Handler}
     (hg : cpc = .returned → closing = true) (ok : HOk closing cpc h)
     (hs : hstep closing cpc.holdsMu (decide (cpc = .returned)) h (.closeConn) = some h') : HOk closing cpc h' := by
-  obtain ⟨e1, e2, e3, e4, e5, e6, e7, e8, e9, e10, e11⟩ := ok
+  obtain ⟨e1, e2, e3, e4, e5, e6, e7, e8, e9, e9', e9'', e10, e11⟩ := ok
   cases hpc : h.pc <;> simp [hstep, hpc, Pc.readable] at hs
   all_goals (first | (obtain ⟨hc, hs⟩ := hs; subst hs; hok_tac) | (subst hs; hok_tac))
 
 theorem hstep_ok_finish {closing : Bool} {cpc : ClosePc} {h h' : Handler}
     (hg : cpc = .returned → closing = true) (ok : HOk closing cpc h)
     (hs : hstep closing cpc.holdsMu (decide (cpc = .returned)) h (.finish) = some h') : HOk closing cpc h' := by
-  obtain ⟨e1, e2, e3, e4, e5, e6, e7, e8, e9, e10, e11⟩ := ok
+  obtain ⟨e1, e2, e3, e4, e5, e6, e7, e8, e9, e9', e9'', e10, e11⟩ := ok
   cases hpc : h.pc <;> simp [hstep, hpc, Pc.readable] at hs
   all_goals (first | (obtain ⟨hc, hs⟩ := hs; subst hs; hok_tac) | (subst hs; hok_tac))
 
@@ -480,5 +482,278 @@ theorem reachable_step {s s' : Sys} {l : Label} (h : Reachable s) (hs : step s l
   refine ⟨sched ++ [l], ?_⟩
   rw [run_append, hr]
   simp [run, hs]
+
+/-! ### progress and termination of shutdown -/
+
+def Pc.rank : Pc → Nat
+  | .accepted => 20 | .spawned => 19 | .added => 18 | .haveReq => 17 | .inReqmod => 16 | .postReqmod => 15
+  | .inRoundTrip => 14 | .postRoundTrip => 13 | .inResmod => 12 | .postResmod => 11
+  | .decided _ => 10 | .writing _ => 9 | .idleRead => 4 | .midHead => 3
+  | .closingConn => 2 | .closed => 1 | .done => 0
+
+def ClosePc.rank : ClosePc → Nat
+  | .idle => 5 | .called => 4 | .chanClosed => 3 | .locked => 2 | .zeroSeen => 1 | .returned => 0
+
+def AccPc.rank : AccPc → Nat
+  | .holding _ => 2 | .top => 1 | .accepting => 0 | .stopped => 0
+
+def hsum (hs : List Handler) : Nat := (hs.map (·.pc.rank)).sum
+
+/-- Termination measure: strictly decreased by every move of the proxy itself. -/
+def measure (s : Sys) : Nat := hsum s.hs + s.cpc.rank + s.acc.rank
+
+/-- Shutdown is complete: `Close` has returned and every accepted connection's handler is done. -/
+def Final (s : Sys) : Prop := s.cpc = .returned ∧ ∀ h ∈ s.hs, h.pc = .done
+
+theorem hsum_set {hs : List Handler} {k : Nat} {h h' : Handler} (hk : hs[k]? = some h) :
+    hsum (hs.set k h') + h.pc.rank = hsum hs + h'.pc.rank := by
+  induction hs generalizing k with
+  | nil => simp at hk
+  | cons a t ih =>
+    cases k with
+    | zero =>
+      simp at hk; subst hk
+      simp only [List.set_cons_zero, hsum, List.map_cons, List.sum_cons]; omega
+    | succ k =>
+      simp at hk
+      have := ih hk
+      simp only [List.set_cons_succ, hsum, List.map_cons, List.sum_cons] at this ⊢
+      omega
+
+theorem hstep_rank {c mu r : Bool} {h h' : Handler} {l : HL}
+    (hs : hstep c mu r h l = some h') (hl : ∀ rc, l ≠ .gotReq rc) : h'.pc.rank < h.pc.rank := by
+  cases l <;> cases hpc : h.pc <;> simp [hstep, hpc, Pc.readable] at hs
+  all_goals (first | (obtain ⟨_, hs⟩ := hs; subst hs; simp [Pc.rank]; done) | (subst hs; simp [Pc.rank]; done) | skip)
+  all_goals (first | (subst hs; cases c <;> simp [Pc.rank]; done) | (subst hs; rename_i b; cases b <;> simp [Pc.rank]; done) | (exact absurd rfl (hl _)))
+
+theorem internal_step_decreases {s s' : Sys} {l : Label} (hs : step s l = some s') (hi : l.internal = true) :
+    measure s' < measure s := by
+  cases l with
+  | accept => simp [Label.internal] at hi
+  | closeCall => simp [Label.internal] at hi
+  | serveCheck =>
+    simp only [step] at hs
+    split at hs <;> cases hs
+    rename_i ha
+    simp only [measure, ha]
+    split <;> simp [AccPc.rank]
+  | closeChan =>
+    simp only [step] at hs
+    split at hs <;> cases hs
+    rename_i hc
+    simp [measure, hc, ClosePc.rank]
+  | lock =>
+    simp only [step] at hs
+    split at hs <;> cases hs
+    rename_i hc
+    simp [measure, hc, ClosePc.rank]
+  | waitZero =>
+    simp only [step] at hs
+    split at hs <;> cases hs
+    rename_i hc
+    simp [measure, hc.1, ClosePc.rank]
+  | ret =>
+    simp only [step] at hs
+    split at hs <;> cases hs
+    rename_i hc
+    simp [measure, hc, ClosePc.rank]
+  | h k l =>
+    have hl : ∀ rc, l ≠ .gotReq rc := by
+      intro rc e; subst e; simp [Label.internal] at hi
+    simp only [step] at hs
+    split at hs
+    · cases hs
+    · rename_i h hk
+      split at hs
+      · cases hs
+      · rename_i hsp
+        split at hs
+        · cases hs
+        · rename_i h' hh
+          cases hs
+          have hr := hstep_rank hh hl
+          have hset := hsum_set (h' := h') hk
+          simp only [measure]
+          have hacc : (if l = .spawn then AccPc.top else s.acc).rank ≤ s.acc.rank := by
+            by_cases e : l = .spawn
+            · simp only [e, if_true]
+              have : s.acc = .holding k := by
+                by_cases e2 : s.acc = .holding k
+                · exact e2
+                · exact absurd ⟨e, e2⟩ hsp
+              simp [this, AccPc.rank]
+            · simp [e]
+          omega
+
+theorem step_cpc_ne_idle {s s' : Sys} {l : Label} (hs : step s l = some s') (hc : s.cpc ≠ .idle) :
+    s'.cpc ≠ .idle := by
+  cases l <;> simp only [step] at hs
+  case h k l =>
+    split at hs
+    · cases hs
+    · split at hs
+      · cases hs
+      · split at hs <;> cases hs
+        exact hc
+  all_goals (split at hs <;> cases hs) <;> first | exact hc | simp
+
+/-- The next move of a counted handler once shutdown has been signalled. -/
+def Pc.next : Pc → HL
+  | .added => .checkClosing
+  | .idleRead | .midHead => .closingSeen
+  | .haveReq => .reqmodStart
+  | .inReqmod => .reqmodEnd
+  | .postReqmod => .rtStart
+  | .inRoundTrip => .rtEnd false
+  | .postRoundTrip => .resmodStart
+  | .inResmod => .resmodEnd
+  | .postResmod => .decide
+  | .decided _ => .writeStart
+  | .writing _ => .writeEnd
+  | .closingConn => .closeConn
+  | _ => .finish
+
+theorem next_enabled {mu r : Bool} {h : Handler} (hc : h.pc.counted = true) :
+    (hstep true mu r h h.pc.next).isSome = true ∧ h.pc.next ≠ .spawn ∧ (Label.h 0 h.pc.next).internal = true := by
+  cases hp : h.pc <;> simp_all [Pc.counted, Pc.next, hstep, Pc.readable, Label.internal]
+
+theorem internal_h_irrel (k : Nat) (l : HL) : (Label.h k l).internal = (Label.h 0 l).internal := by
+  cases l <;> rfl
+
+theorem progress {s : Sys} (hr : Reachable s) (hc : s.cpc ≠ .idle) (hnf : ¬ Final s) :
+    ∃ l, l.internal = true ∧ (step s l).isSome = true := by
+  have g := reachable_good hr
+  by_cases hcalled : s.cpc = .called
+  · exact ⟨.closeChan, rfl, by simp [step, hcalled]⟩
+  have hclosing : s.closing = true := by
+    rw [g.chan]; cases hcp : s.cpc <;> simp_all [ClosePc.chanIsClosed]
+  by_cases hex : ∃ h ∈ s.hs, h.pc.counted = true
+  · obtain ⟨h, hm, hcnt⟩ := hex
+    obtain ⟨k, hk⟩ := List.getElem?_of_mem hm
+    have hn := next_enabled (mu := s.cpc.holdsMu) (r := decide (s.cpc = .returned)) hcnt
+    refine ⟨.h k h.pc.next, by rw [internal_h_irrel]; exact hn.2.2, ?_⟩
+    simp only [step, hk, hclosing]
+    have : ¬(h.pc.next = .spawn ∧ s.acc ≠ .holding k) := fun e => hn.2.1 e.1
+    simp only [this, if_false]
+    cases hh : hstep true s.cpc.holdsMu (decide (s.cpc = .returned)) h h.pc.next with
+    | none => rw [hh] at hn; simp at hn
+    | some h' => simp
+  · have hunc : ∀ h ∈ s.hs, h.pc.counted = false := by
+      intro h hm
+      cases hcn : h.pc.counted with
+      | false => rfl
+      | true => exact absurd ⟨h, hm, hcn⟩ hex
+    have hwg : s.wg = 0 := by
+      rw [g.wg]; exact List.countP_eq_zero.mpr (fun h hm => by simp [hunc h hm])
+    cases hcp : s.cpc with
+    | idle => exact absurd hcp hc
+    | called => exact absurd hcp hcalled
+    | chanClosed => exact ⟨.lock, rfl, by simp [step, hcp]⟩
+    | locked => exact ⟨.waitZero, rfl, by simp [step, hcp, hwg]⟩
+    | zeroSeen => exact ⟨.ret, rfl, by simp [step, hcp]⟩
+    | returned =>
+      have : ∃ h ∈ s.hs, h.pc ≠ .done := by
+        apply Classical.byContradiction
+        intro hno
+        apply hnf
+        refine ⟨hcp, fun h hm => ?_⟩
+        apply Classical.byContradiction
+        intro hne
+        exact hno ⟨h, hm, hne⟩
+      obtain ⟨h, hm, hnd⟩ := this
+      obtain ⟨k, hk⟩ := List.getElem?_of_mem hm
+      have hu := hunc h hm
+      cases hp : h.pc <;> simp_all [Pc.counted]
+      · -- accepted: `Serve` holds it, the `go` statement is enabled
+        have hacc := (g.acc k h hk).mp hp
+        exact ⟨.h k .spawn, rfl, by simp [step, hk, hacc, hstep, hp]⟩
+      · -- spawned: `connsMu` is free again, `conns.Add(1)` is enabled
+        exact ⟨.h k .add, rfl, by simp [step, hk, hstep, hp, hcp, ClosePc.holdsMu]⟩
+
+/-! ### shutdown observable before the close decision ⇒ that response is marked -/
+
+/-- The exchange is started and its close decision is still ahead. -/
+def Pc.beforeDecision : Pc → Bool
+  | .inReqmod | .postReqmod | .inRoundTrip | .postRoundTrip | .inResmod | .postResmod => true
+  | _ => false
+
+/-- Tracking exchange number `c` of a handler: either it is still in flight and can only be decided
+"close", or it is complete and recorded as marked. -/
+def Track (c : Nat) (h : Handler) : Prop :=
+  (h.completed = c ∧ h.marks.length = c ∧
+    (h.pc.beforeDecision = true ∨ h.pc = .decided true ∨ h.pc = .writing true)) ∨
+  (c < h.completed ∧ ∃ o a, h.marks[c]? = some (o, a, true))
+
+theorem hstep_track {c : Nat} {mu r : Bool} {h h' : Handler} {l : HL}
+    (ht : Track c h) (hs : hstep true mu r h l = some h') : Track c h' := by
+  rcases ht with ⟨h1, h2, h3⟩ | ⟨h1, o, a, h2⟩
+  · rcases h3 with h3 | h3 | h3
+    · cases l <;> cases hpc : h.pc <;> simp [hstep, hpc, Pc.readable, Pc.beforeDecision] at hs h3
+      all_goals (subst hs; left; simp [h1, h2, Pc.beforeDecision])
+    · cases l <;> simp [hstep, h3, Pc.readable] at hs
+      subst hs; left; simp [h1, h2]
+    · cases l <;> simp [hstep, h3, Pc.readable] at hs
+      subst hs; right
+      refine ⟨by simp [h1], h.obsAtDecision, h.reqClose || h.resClose, ?_⟩
+      simp [← h2]
+  · have hlt : c < h.marks.length := by
+      rcases List.getElem?_eq_some_iff.mp h2 with ⟨hlt, _⟩; exact hlt
+    cases l <;> cases hpc : h.pc <;> simp [hstep, hpc, Pc.readable] at hs
+    all_goals (first | (obtain ⟨_, hs⟩ := hs; subst hs) | subst hs)
+    all_goals right
+    all_goals first
+      | exact ⟨h1, o, a, h2⟩
+      | (refine ⟨by simp; omega, o, a, ?_⟩
+         simp [List.getElem?_append_left hlt, h2])
+
+theorem step_track {s s' : Sys} {l : Label} {k c : Nat} {h : Handler}
+    (hc : s.closing = true) (hk : s.hs[k]? = some h) (ht : Track c h) (hs : step s l = some s') :
+    s'.closing = true ∧ ∃ h', s'.hs[k]? = some h' ∧ Track c h' := by
+  cases l with
+  | h j l =>
+    simp only [step] at hs
+    split at hs
+    · cases hs
+    · rename_i hj hjk
+      split at hs
+      · cases hs
+      · split at hs
+        · cases hs
+        · rename_i h' hh
+          cases hs
+          refine ⟨hc, ?_⟩
+          by_cases e : j = k
+          · subst e
+            rw [hk] at hjk; cases hjk
+            have hlt : j < s.hs.length := by
+              rcases List.getElem?_eq_some_iff.mp hk with ⟨hlt, _⟩; exact hlt
+            rw [hc] at hh
+            exact ⟨h', by simp [List.getElem?_set, hlt], hstep_track ht hh⟩
+          · exact ⟨h, by simp [List.getElem?_set_ne e, hk], ht⟩
+  | accept =>
+    simp only [step] at hs
+    split at hs <;> cases hs
+    have hlt : k < s.hs.length := by
+      rcases List.getElem?_eq_some_iff.mp hk with ⟨hlt, _⟩; exact hlt
+    exact ⟨hc, h, by simp [List.getElem?_append_left hlt, hk], ht⟩
+  | serveCheck => simp only [step] at hs; split at hs <;> cases hs; exact ⟨hc, h, hk, ht⟩
+  | closeCall => simp only [step] at hs; split at hs <;> cases hs; exact ⟨hc, h, hk, ht⟩
+  | closeChan => simp only [step] at hs; split at hs <;> cases hs; exact ⟨rfl, h, hk, ht⟩
+  | lock => simp only [step] at hs; split at hs <;> cases hs; exact ⟨hc, h, hk, ht⟩
+  | waitZero => simp only [step] at hs; split at hs <;> cases hs; exact ⟨hc, h, hk, ht⟩
+  | ret => simp only [step] at hs; split at hs <;> cases hs; exact ⟨hc, h, hk, ht⟩
+
+theorem run_track {sched : List Label} {s s' : Sys} {k c : Nat} {h : Handler}
+    (hc : s.closing = true) (hk : s.hs[k]? = some h) (ht : Track c h) (hr : run s sched = some s') :
+    ∃ h', s'.hs[k]? = some h' ∧ Track c h' := by
+  induction sched generalizing s h with
+  | nil => simp [run] at hr; subst hr; exact ⟨h, hk, ht⟩
+  | cons l ls ih =>
+    simp only [run] at hr
+    split at hr
+    · cases hr
+    · rename_i s1 h1
+      obtain ⟨hc1, h1', hk1, ht1⟩ := step_track hc hk ht h1
+      exact ih hc1 hk1 ht1 hr
 
 end Martian.Shutdown
